@@ -25,6 +25,7 @@ Viol(e) ==
     [] e.kind = "scale" -> ScaleViolated(e)
     [] e.kind = "update" -> UpdateViolated(e)
     [] e.kind = "scalegate" -> ScaleGateViolated(e)
+    [] e.kind = "ordshut" -> OrdShutViolated(e)
     [] e.kind = "output" -> OutputViolated(e)
     [] e.kind = "api" -> ApiViolated(e)
     [] e.kind = "osstop" -> StopViolated(e)
@@ -37,7 +38,7 @@ Next ==
   /\ LET e == Trace[l]  v == Viol(e) IN
        IF v = {} THEN TRUE
        ELSE PrintT("VIOL ## " \o e.id \o " ## " \o ToString(l) \o " ## " \o ToString(v) \o " ## "
-                   \o ToString([kind |-> e.kind, detail |-> IF e.kind \in {"scale", "update", "scalegate"} THEN ScaleDetail(e) ELSE IF e.kind = "output" THEN OutputDetail(e) ELSE IF e.kind = "api" THEN ApiDetail(e) ELSE IF e.kind = "osstop" THEN StopDetail(e) ELSE IF e.kind = "conc" THEN ConcDetail(e) ELSE Detail(e)]) \o " ## " \o ToString([rec |-> l]))
+                   \o ToString([kind |-> e.kind, detail |-> IF e.kind \in {"scale", "update", "scalegate"} THEN ScaleDetail(e) ELSE IF e.kind = "ordshut" THEN OrdShutDetail(e) ELSE IF e.kind = "output" THEN OutputDetail(e) ELSE IF e.kind = "api" THEN ApiDetail(e) ELSE IF e.kind = "osstop" THEN StopDetail(e) ELSE IF e.kind = "conc" THEN ConcDetail(e) ELSE Detail(e)]) \o " ## " \o ToString([rec |-> l]))
   /\ l' = l + 1
 Spec == Init /\ [][Next]_vars
 =============================================================================
